@@ -229,6 +229,7 @@ theorem sendMany_spec (z : ZlibFns) (c : Bool) (maxChunk : Nat) (hmax : Gen.fram
     simp only at hpre1 hsent1 hend1
     rcases hend1 with ⟨e, hfull, hc⟩ | ⟨e, hc⟩ | ⟨e, hs, hc⟩
     · subst e
+      simp only
       simp only [decide_eq_true_eq] at hfull
       subst hfull
       rw [List.take_length] at hsent1
@@ -298,6 +299,72 @@ theorem writeLoop_accepting (maxChunk : Nat) (hmax : 1 ≤ maxChunk) :
       | timeout => simp [accepting] at hev
       | err e => simp [accepting] at hev
 
+theorem accepting_suffix {sc pre sc' : List SendEv} (h : sc = pre ++ sc')
+    (hacc : ∀ ev ∈ sc, accepting ev = true) : ∀ ev ∈ sc', accepting ev = true := by
+  intro ev hev
+  exact hacc ev (by rw [h]; simp [hev])
+
+theorem writeAll_accepting (maxChunk : Nat) (hmax : 1 ≤ maxChunk) (data : Bytes) (s : WState)
+    (hcl : s.closed = false) (hacc : ∀ ev ∈ s.script, accepting ev = true)
+    (hl : data.length ≤ s.script.length) :
+    (writeAll maxChunk data s).1 = .ok ∧
+    s.script.length ≤ (writeAll maxChunk data s).2.script.length + data.length := by
+  unfold writeAll
+  by_cases hd : data = []
+  · rw [if_pos hd]; simp
+  · rw [if_neg hd, hcl, if_neg (by simp)]
+    exact writeLoop_accepting maxChunk hmax s.script data s.chunks hacc hl
+
+theorem writeSeq_accepting (maxChunk : Nat) (hmax : 1 ≤ maxChunk) : ∀ (ws : List Bytes) (s : WState),
+    s.closed = false → (∀ ev ∈ s.script, accepting ev = true) → ws.flatten.length ≤ s.script.length →
+    (writeSeq maxChunk ws s).1 = .ok ∧
+    s.script.length ≤ (writeSeq maxChunk ws s).2.script.length + ws.flatten.length := by
+  intro ws
+  induction ws with
+  | nil => intro s _ _ _; simp [writeSeq]
+  | cons w ws ih =>
+    intro s hcl hacc hl
+    simp only [List.flatten_cons, List.length_append] at hl ⊢
+    simp only [writeSeq]
+    obtain ⟨a1, a2⟩ := writeAll_accepting maxChunk hmax w s hcl hacc (by omega)
+    have H1 := writeAll_spec maxChunk w s
+    cases hr1 : writeAll maxChunk w s with
+    | mk res1 s1 =>
+    rw [hr1] at H1 a1 a2
+    simp only at a1 a2
+    subst a1
+    simp only [writeSeqNext]
+    obtain ⟨⟨pre1, hpre1⟩, m1, _, _, hend1⟩ := H1
+    simp only at hpre1
+    have hc1 : s1.closed = false := by
+      unfold WriteEnd at hend1
+      simp only at hend1
+      rcases hend1 with ⟨_, _, c⟩ | ⟨e, _⟩ | ⟨e, _⟩
+      · rw [c, hcl]
+      · cases e
+      · cases e
+    obtain ⟨i1, i2⟩ := ih s1 hc1 (accepting_suffix hpre1 hacc) (by omega)
+    exact ⟨i1, by omega⟩
+
+theorem chanSend_accepting (z : ZlibFns) (c : Bool) (maxChunk : Nat)
+    (hmax : Gen.frameHeaderSize ≤ maxChunk) (hmax1 : 1 ≤ maxChunk) (p : Bytes) (s : WState)
+    (hf : Fits z c p) (hcl : s.closed = false) (hacc : ∀ ev ∈ s.script, accepting ev = true)
+    (hl : (frameBytes z c p).length ≤ s.script.length) :
+    (chanSend z c maxChunk p s).1 = .ok ∧
+    s.script.length ≤ (chanSend z c maxChunk p s).2.script.length + (frameBytes z c p).length := by
+  obtain ⟨ws, hws, hflat⟩ := sendWrites_ok z c maxChunk p hf hmax
+  unfold chanSend
+  rw [hws]
+  simp only
+  rw [← hflat] at hl ⊢
+  obtain ⟨a1, a2⟩ := writeSeq_accepting maxChunk hmax1 ws s hcl hacc hl
+  cases hr : writeSeq maxChunk ws s with
+  | mk res s' =>
+  rw [hr] at a1 a2
+  simp only at a1 a2
+  subst a1
+  exact ⟨rfl, a2⟩
+
 /-- everything is sent when the transport keeps accepting at least one byte per call often enough -/
 theorem sendMany_accepting (z : ZlibFns) (c : Bool) (maxChunk : Nat)
     (hmax : Gen.frameHeaderSize ≤ maxChunk) (hmax1 : 1 ≤ maxChunk) :
@@ -306,6 +373,40 @@ theorem sendMany_accepting (z : ZlibFns) (c : Bool) (maxChunk : Nat)
       (sendMany z c maxChunk ps s).1 = ps.length ∧ (sendMany z c maxChunk ps s).2.1 = .done ∧
       (sendMany z c maxChunk ps s).2.2.sent = s.sent ++ wireOf z c ps ∧
       (sendMany z c maxChunk ps s).2.2.closed = false := by
-  sorry
+  intro ps
+  induction ps with
+  | nil => intro s _ hcl _ _; simp [sendMany, hcl]
+  | cons p ps ih =>
+    intro s hf hcl hacc hl
+    rw [wireOf_cons, List.length_append] at hl
+    simp only [sendMany]
+    obtain ⟨a1, a2⟩ := chanSend_accepting z c maxChunk hmax hmax1 p s (hf p (by simp)) hcl hacc (by omega)
+    have H1 := chanSend_spec z c maxChunk hmax p s (hf p (by simp))
+    cases hr1 : chanSend z c maxChunk p s with
+    | mk res1 s1 =>
+    rw [hr1] at H1 a1 a2
+    simp only at a1 a2
+    subst a1
+    simp only
+    obtain ⟨⟨pre1, hpre1⟩, m1, _, hsent1, hend1⟩ := H1
+    simp only at hpre1 hsent1
+    unfold SendEnd at hend1
+    simp only at hend1
+    rcases hend1 with ⟨_, hfull, hc⟩ | ⟨e, _⟩ | ⟨e, _⟩
+    · simp only [decide_eq_true_eq] at hfull
+      subst hfull
+      rw [List.take_length] at hsent1
+      obtain ⟨i1, i2, i3, i4⟩ := ih s1 (fun q hq => hf q (by simp [hq])) (by rw [hc, hcl])
+        (accepting_suffix hpre1 hacc) (by omega)
+      cases hr2 : sendMany z c maxChunk ps s1 with
+      | mk k r2 =>
+      cases r2 with
+      | mk o s2 =>
+      rw [hr2] at i1 i2 i3 i4
+      simp only at i1 i2 i3 i4
+      simp only [sendCount]
+      exact ⟨by simp [i1], i2, by rw [i3, hsent1, wireOf_cons, List.append_assoc], i4⟩
+    · cases e
+    · cases e
 
 end Rpyc.Wire
